@@ -56,6 +56,28 @@ Theorem C02_relations : forall a v,
 Proof. intros a v. repeat split. Qed.
 Print Assumptions C02_relations.
 
+(** the two halves ARE the 64-bit value: each fits a 32-bit BPF word (so neither the compare immediates nor the
+    loaded words are truncated), together they determine the value, and two values with the same halves are equal -
+    nothing of an argument or an operand below 2^64 is lost in the split the lowering relies on *)
+Theorem C02_halves_are_faithful : forall a, a < two64 ->
+  hi a < two32 /\ lo a < two32 /\ a = hi a * two32 + lo a /\ (forall v, hi v = hi a -> lo v = lo a -> v = a).
+Proof.
+  intros a Ha. split; [exact (hi_lt32 a Ha)|]. split; [exact (lo_lt32 a)|]. split; [exact (hi_lo a)|].
+  intros v H1 H2. apply eq64. split; assumption.
+Qed.
+Print Assumptions C02_halves_are_faithful.
+
+(** the eight relations come in four complementary pairs and the order relations are the strict / non-strict forms of
+    one unsigned order: for every actual value and operand exactly one of each pair holds, [>=] is [>] or [=], [<=] is
+    [<] or [=], and exactly one of [<], [=], [>] holds - no value falls between the cases, none into two *)
+Theorem C02_relations_partition : forall a v,
+  rel OpNe a v = negb (rel OpEq a v) /\ rel OpLe a v = negb (rel OpGt a v) /\ rel OpGe a v = negb (rel OpLt a v) /\
+  rel OpNSet a v = negb (rel OpSet a v) /\
+  rel OpGe a v = rel OpGt a v || rel OpEq a v /\ rel OpLe a v = rel OpLt a v || rel OpEq a v /\
+  (if rel OpLt a v then 1 else 0) + (if rel OpEq a v then 1 else 0) + (if rel OpGt a v then 1 else 0) = 1.
+Proof. exact rel_partition. Qed.
+Print Assumptions C02_relations_partition.
+
 (** ** The tie to the source at the level of the code generator itself.
     [cond_chain], [shape_LdHi], [shape_LdLo] (gen/GenCodegen.v) are REGENERATED from filter.go / assembler.go on every
     run: the if/else chain of SyscallWithConditions.Assemble rendered as builder-call templates, and the form of the
